@@ -41,6 +41,8 @@ import (
 	"github.com/nuts-foundation/go-did/did"
 	"github.com/nuts-foundation/go-stoabs"
 	"github.com/nuts-foundation/go-stoabs/bbolt"
+	"github.com/nuts-foundation/nuts-node/audit"
+	nutsCrypto "github.com/nuts-foundation/nuts-node/crypto"
 	"github.com/nuts-foundation/nuts-node/crypto/hash"
 	"github.com/nuts-foundation/nuts-node/network/dag/tree"
 	"github.com/nuts-foundation/nuts-node/vdr/resolver"
@@ -1039,6 +1041,15 @@ type v6Op struct {
 	Cancel bool    `json:"cancel,omitempty"` // add: the context is cancelled by a subscriber's Save inside the write transaction
 	Note  string   `json:"note,omitempty"`
 	Ranges [][2]uint32 `json:"ranges,omitempty"` // shelf: FindBetweenLC queries to run on the raw store
+	// newtx: arguments of NewTransaction and of Sign
+	Cty   string   `json:"cty,omitempty"`
+	Prevs []string `json:"prevs,omitempty"`
+	PalN  *int     `json:"paln,omitempty"`
+	Lc    uint32   `json:"lc,omitempty"`
+	Ph    string   `json:"ph,omitempty"`
+	Sigt  int64    `json:"sigt,omitempty"`
+	Embed bool     `json:"embed,omitempty"`
+	Kid   string   `json:"kid,omitempty"`
 }
 
 func v6Payload(pid *int) []byte {
@@ -1099,6 +1110,8 @@ func (x *v6Exec) run(op v6Op) string {
 	case "hashlist":
 		in, _ := base64.StdEncoding.DecodeString(op.Call.In)
 		return v6HashListLine(in)
+	case "newtx":
+		return v6NewTxLine(op)
 	case "shelf":
 		return x.node.shelfDump(op.Ranges)
 	case "new":
@@ -1423,6 +1436,174 @@ func (g *v6Gen) framingMutants(exhaustive bool) {
 			g.framingOp("syn:byte", []byte("e30.Q"+string([]byte{byte(b)})+"Q.QQ"))
 			g.framingOp("syn:first-byte", append([]byte{byte(b)}, []byte("{}")...))
 		}
+	}
+}
+
+// ---- deepening round: making a transaction — the REAL NewTransaction and the REAL transactionSigner.Sign (with an in-memory JWS signer)
+
+func v6SignClass(err error) string {
+	s := err.Error()
+	switch {
+	case strings.Contains(s, "signing time is zero"):
+		return "err:signing-time-zero"
+	case strings.Contains(s, "already signed"):
+		return "err:already-signed"
+	case strings.Contains(s, "unable to parse transaction") || strings.Contains(s, "transaction validation failed") || strings.Contains(s, "not valid"):
+		return v6ParseClass(err)
+	}
+	return v6ParseClass(err)
+}
+
+func v6NewTxLine(op v6Op) string {
+	ph, _ := hash.ParseHex(op.Ph)
+	var prevs []hash.SHA256Hash
+	for _, p := range op.Prevs {
+		h, _ := hash.ParseHex(p)
+		prevs = append(prevs, h)
+	}
+	var pal EncryptedPAL
+	if op.PalN != nil {
+		pal = EncryptedPAL{}
+		for i := 0; i < *op.PalN; i++ {
+			pal = append(pal, []byte{byte(i), 'p', 'a', 'l'})
+		}
+	}
+	u, err := NewTransaction(ph, op.Cty, prevs, pal, op.Lc)
+	if err != nil {
+		switch err {
+		case errInvalidPayloadType:
+			return "err:invalid-payload-type"
+		case errInvalidPrevs:
+			return "err:invalid-prevs"
+		}
+		return "err:new:?" + err.Error()
+	}
+	var ups []string
+	for _, p := range u.Previous() {
+		ups = append(ups, v6Short(p))
+	}
+	line := fmt.Sprintf("new prevs=[%s] nilprevs=%v ver=%d lc=%d", strings.Join(ups, ","), u.Previous() == nil, u.Version(), u.Clock())
+	// Sign with a fresh in-memory key
+	k := v6NewKey()
+	jk, err := jwk.FromRaw(k.priv)
+	if err != nil {
+		return line + " | sign-setup:" + err.Error()
+	}
+	_ = jk.Set(jwk.KeyIDKey, op.Kid)
+	var pub crypto.PublicKey
+	if op.Embed {
+		pub = &k.priv.PublicKey
+	}
+	signer := NewTransactionSigner(nutsCrypto.MemoryJWTSigner{Key: jk}, op.Kid, pub)
+	ctx := audit.TestContext()
+	if _, err := signer.Sign(ctx, u, time.Time{}); err != nil {
+		line += " zero=" + v6SignClass(err)
+	} else {
+		line += " zero=ok"
+	}
+	moment := time.Unix(op.Sigt, 0)
+	if op.Sigt == 0 {
+		moment = time.Time{}
+	}
+	signed, err := signer.Sign(ctx, u, moment)
+	if err != nil {
+		return line + " | sign=" + v6SignClass(err)
+	}
+	var sps []string
+	for _, p := range signed.Previous() {
+		sps = append(sps, v6Short(p))
+	}
+	kid := signed.SigningKeyID()
+	line += fmt.Sprintf(" | sign=ok alg=%s ph=%s cty=%q jwk=%v kid=%q sigt=%d ver=%d prevs=[%s] pal=%d lc=%d", signed.SigningAlgorithm(), v6Short(signed.PayloadHash()),
+		signed.PayloadType(), signed.SigningKey() != nil, kid, signed.SigningTime().Unix(), signed.Version(), strings.Join(sps, ","), len(signed.PAL()), signed.Clock())
+	// the protected header as signed: member names and the crit list
+	d := v6Describe(signed.Data())
+	var names []string
+	crit := "?"
+	if ms, ok := d["members"].([]any); ok {
+		for _, m := range ms {
+			if pr, ok := m.([]any); ok && len(pr) == 2 {
+				nm, _ := pr[0].(string)
+				names = append(names, nm)
+				if nm == "crit" {
+					var cs []string
+					if j, ok := pr[1].(map[string]any); ok {
+						if arr, ok := j["v"].([]any); ok {
+							for _, el := range arr {
+								if em, ok := el.(map[string]any); ok {
+									sv, _ := em["s"].(string)
+									cs = append(cs, sv)
+								}
+							}
+						}
+					}
+					crit = strings.Join(cs, ",")
+				}
+			}
+		}
+	}
+	sort.Strings(names)
+	line += " names=" + strings.Join(names, ",") + " crit=" + crit
+	if _, err := signer.Sign(ctx, signed, time.Unix(1700000000, 0)); err != nil {
+		line += " again=" + v6SignClass(err)
+	} else {
+		line += " again=ok"
+	}
+	return line
+}
+
+func (g *v6Gen) newTxOps(n int) {
+	ctys := []string{"application/did+json", "a/b", "/", "x/", "/y", "nomime", "", "application\\json", "a/b/c", " / "}
+	zero := strings.Repeat("0", 64)
+	for i := 0; i < n; i++ {
+		op := v6Op{Op: "newtx", Ph: g.randRef(), Lc: uint32(g.rnd.Intn(5))}
+		op.Cty = ctys[0]
+		if g.rnd.Intn(3) == 0 {
+			op.Cty = ctys[g.rnd.Intn(len(ctys))]
+		}
+		switch g.rnd.Intn(6) {
+		case 0:
+			op.Lc = math.MaxUint32
+		case 1:
+			op.Lc = uint32(g.rnd.Uint32())
+		}
+		pool := []string{g.randRef(), g.randRef(), g.randRef()}
+		np := g.rnd.Intn(6)
+		for j := 0; j < np; j++ {
+			op.Prevs = append(op.Prevs, pool[g.rnd.Intn(len(pool))]) // duplicates on purpose
+		}
+		if g.rnd.Intn(6) == 0 {
+			at := g.rnd.Intn(len(op.Prevs) + 1)
+			op.Prevs = append(op.Prevs[:at:at], append([]string{zero}, op.Prevs[at:]...)...)
+		}
+		if g.rnd.Intn(8) == 0 {
+			op.Ph = zero
+		}
+		switch g.rnd.Intn(4) {
+		case 0:
+			n0 := 0
+			op.PalN = &n0
+		case 1:
+			n2 := 1 + g.rnd.Intn(3)
+			op.PalN = &n2
+		}
+		op.Sigt = 1600000000 + int64(g.rnd.Intn(1e8))
+		switch g.rnd.Intn(10) {
+		case 0:
+			op.Sigt = 0
+		case 1:
+			op.Sigt = -1 - int64(g.rnd.Intn(1e9))
+		case 2:
+			op.Sigt = 1
+		case 3:
+			op.Sigt = 253402300799 // year 9999
+		}
+		op.Embed = g.rnd.Intn(2) == 0
+		op.Kid = "did:nuts:d" + strconv.Itoa(g.rnd.Intn(5)) + "#k" + strconv.Itoa(g.rnd.Intn(3))
+		if g.rnd.Intn(7) == 0 {
+			op.Kid = ""
+		}
+		g.emit(op)
 	}
 }
 
